@@ -8,7 +8,7 @@
 (* directory (tree made / not made), e.g. mkdir; verify --strict; mkdir.   *)
 (*                                                                         *)
 (* inv = [sub, format, massive, file, dryrun, exts, target, strict,        *)
-(*        stray, unknown, doc, stdout]                                     *)
+(*        stray, unknown, doc, stdout, mtimeout]                           *)
 (*   sub    \in {"output","mkdir","verify","template"}                     *)
 (*   format \in {"", "json","yaml","toml","bad"}                           *)
 (*   file   \in {"stdin","dash","existing","missing"}                      *)
@@ -44,6 +44,8 @@ OpenError(inv)  == inv.sub # "template" /\ inv.file = "missing"
 LibResult(inv, m) ==
   LET d == Dispatch(inv) IN
   CASE d.op = "template" -> "nil"
+    \* --massive-timeout 1ns: the context has expired before the pipeline starts; the call reports it
+    [] inv.sub = "output" /\ inv.mtimeout -> "err"
     [] inv.doc = "malformed" -> "err"
     [] inv.doc = "empty" -> IF d.op = "verify" THEN "nil" ELSE "nil"
     \* "dot": a root named "." (the target directory itself) with the well-formed document's roots as its children
